@@ -459,10 +459,28 @@ pub fn gen_obj_jumbo(rng: &mut Rng) -> GenObj {
     }
     // mostly just past 2^16 vertices, now and then past 2^20
     let nv = if rng.chance(1, 10) { rng.usize(1_048_577, 1_060_000) } else { rng.usize(65_537, 70_000) };
+    // one very long line somewhere among the many: a comment, or a vertex line padded
+    // with thousands of blanks
+    let long_at = if rng.chance(2, 3) { Some(rng.below(nv as u64) as usize) } else { None };
+    let long_is_comment = rng.chance(1, 2);
+    let long_len = rng.usize(4_500, 20_000);
     let mut text = Vec::with_capacity(nv * 10);
     let mut verts = Vec::with_capacity(nv);
     for i in 0..nv {
         let t = [(i % 7) as f32, (i % 11) as f32 * 0.5, -((i % 13) as f32)];
+        if long_at == Some(i) {
+            if long_is_comment {
+                text.extend_from_slice(b"# ");
+                text.extend((0..long_len).map(|k| b"long line v 1 2 3 "[k % 18]));
+                text.push(b'\n');
+            } else {
+                text.extend_from_slice(b"v");
+                text.extend(std::iter::repeat(b' ').take(long_len));
+                text.extend_from_slice(format!("{} {} {}\n", t[0], t[1], t[2]).as_bytes());
+                verts.push(t.map(f32::to_bits));
+                continue;
+            }
+        }
         text.extend_from_slice(format!("v {} {} {}\n", t[0], t[1], t[2]).as_bytes());
         verts.push(t.map(f32::to_bits));
     }
